@@ -128,3 +128,19 @@ Definition json_unpack_bytes (s : bytes) : option (ptuple * bool) :=
       end
   | _, _ => None
   end end end.
+
+(* UnpackDecode: Unpack, then JSONReportCodec.Decode of the embedded report *)
+Definition json_unpack_decode_bytes (s : bytes) : option (res (bytes * Z * freport * list (bytes * Z))) :=
+  match json_unpack_bytes s with
+  | Some (t, _) =>
+      match json_report_parse (pt_report t) with
+      | Some j => match json_decode j with
+                  | Some (Ok fr) => Some (Ok (pt_digest t, pt_seq t, fr, pt_sigs t))
+                  | Some (Err e) => Some (Err e)
+                  | Some (Panic p) => Some (Panic p)
+                  | None => None
+                  end
+      | None => None
+      end
+  | None => None
+  end.
